@@ -16,6 +16,7 @@
 -/
 import AioftpModel.Lemmas.Backends
 import AioftpModel.Generated.PathIO
+import AioftpModel.Lemmas.MemHandles
 
 namespace C18
 open Model Model.Fs Model.Backends Model.Session Model.SessionB Model.FsLemmas Py Generated
@@ -267,5 +268,52 @@ theorem async_methods_run_in_executor :
 
 open Generated.PathIO in
 example : pathioMethods.length = 14 := by decide
+
+/-! ## several transfers of one file at the same time (finding F19)
+
+  On the filesystem backends every `open` is a descriptor of its own.  `MemoryPathIO` used to hand the node's single
+  `BytesIO` to every opener; `Model.MemHandles` is the node with any number of open files under an arbitrary schedule
+  of opens, block reads and anything else that moves the shared object's position. -/
+
+/-- **fact_memory_file_own_position**: as regenerated from `pathio.py`, `_open` returns a fresh `MemoryFile` on
+    every path, and its `seek`/`read`/`write` work from the file's own position -/
+theorem fact_memory_file_own_position : Generated.PathIO.memoryFileOwnPosition = true := by decide
+
+open Model.MemHandles in
+/-- **concurrent_readers_get_prefixes**: under EVERY schedule, what a reader has received so far is the part of the
+    file from where it started to where it is - nothing skipped, nothing repeated, nothing of another reader's -/
+theorem concurrent_readers_get_prefixes (content : Model.MemHandles.Bytes) (evs : List Ev) (h : Nat) :
+    (runNow content evs).got h
+      = (content.drop ((runNow content evs).start h)).take ((runNow content evs).pos h - (runNow content evs).start h) := by
+  unfold runNow; rw [fact_memory_file_own_position]
+  exact (run_inv content evs init (init_inv content)).exact h
+
+open Model.MemHandles in
+/-- **concurrent_readers_get_the_file**: under EVERY schedule, a reader that has seen the end (an empty block) has
+    received the whole file from its restart offset on - what the same `RETR` gives on the filesystem backends -/
+theorem concurrent_readers_get_the_file (content : Model.MemHandles.Bytes) (evs : List Ev) (h : Nat)
+    (hd : (runNow content evs).done h = true) :
+    (runNow content evs).got h = content.drop ((runNow content evs).start h) := by
+  have hi : Inv content (runNow content evs) := by
+    unfold runNow; rw [fact_memory_file_own_position]; exact run_inv content evs init (init_inv content)
+  rw [hi.exact h]
+  apply List.take_of_length_le
+  have := hi.fin h hd
+  have := hi.ord h
+  rw [List.length_drop]; omega
+
+open Model.MemHandles in
+/-- the premises are met by a non-trivial schedule: two readers in turn, the second one from offset 2, a poke between -/
+example :
+    let s := runNow [10, 11, 12, 13, 14] [.open 0 0, .read 0 2, .open 1 2, .read 1 2, .poke 0, .read 0 2, .read 1 2,
+      .read 0 2, .read 1 2, .read 0 2]
+    s.done 0 = true ∧ s.done 1 = true ∧ s.got 0 = [10, 11, 12, 13, 14] ∧ s.got 1 = [12, 13, 14] := by decide
+
+open Model.MemHandles in
+/-- **old_shared_position_truncates**: with the one shared position of the pinned tree the same kind of schedule
+    ends a reader early: reader 0 sees the end after 2 of 5 bytes, because reader 1 read the rest meanwhile -/
+theorem old_shared_position_truncates :
+    let s := run false [10, 11, 12, 13, 14] init [.open 0 0, .read 0 2, .open 1 0, .read 1 9, .read 1 9, .read 0 2]
+    s.done 0 = true ∧ s.got 0 = [10, 11] ∧ s.got 1 = [10, 11, 12, 13, 14] := by decide
 
 end C18
